@@ -10,8 +10,11 @@ Everything after ` | ` on an op line is the oracle annotation the harness observ
   init <m> <reg> | wr=<ok|err> now=<ns>
         -> ok hdr=<ver>,<type>,<sub>,<ri>,<ctr> f=<failed> mi=<msgidx> | err:<kind> f= mi=
   pp <m> <reg> <outreg> | len= st= rd=<ok|err0|err1:why> msg=<hex> k1= k2= ps=<hex> rc=<err|pub:ver> vf=<-|cert> wr=<na|err|okXY> now=
-        -> ok resp=<hdr|-> res=<-|ek,dk,cert,ri,li,time,mi,init> f= mi= | err:<kind> f= mi=
+        -> ok resp=<hdr|-> res=<-|ek,dk,cert,ri,li,time,mi,init,certkey> f= mi= | err:<kind> f= mi=
+           (certkey = Result.RemoteCert.Certificate.PublicKey())
   mut <dst> <src> <kind> <args…> | len=<n>      -> ok len=<n>
+  forge <dst> <role> <static-ident> <cert-ident> <cert-ver> <hs|full> <CertVersion> <ii> <ri> <seed> <m1reg|-> | len=<n>
+        -> ok len=<n>    (a hand-driven noise peer with its own static key sends a crafted payload)
   pair <mI> <mR> | same=<0|1>                   -> none | ek= ke= xx= ri= li= mi= nz=
 -/
 import Nebula.Driver.Common
@@ -60,7 +63,7 @@ def hdrStr (c : Cfg) (x : Sent) : String :=
   s!"{Gen.header_Version},{Gen.header_Handshake},{c.subtype},{x.headerRemoteIndex},{x.headerCounter}"
 
 def resStr (r : Result) : String :=
-  s!"{keyStr r.eKey},{keyStr r.dKey},{r.remoteCert.getD "nil"},{r.remoteIndex},{r.localIndex},{r.handshakeTime},{r.messageIndex},{boolStr r.initiator}"
+  s!"{keyStr r.eKey},{keyStr r.dKey},{r.remoteCert.getD "nil"},{r.remoteIndex},{r.localIndex},{r.handshakeTime},{r.messageIndex},{boolStr r.initiator},{bytesToHex r.remoteKey}"
 
 def showOutcome (c : Cfg) (s : St) (o : Outcome) (isInit : Bool) : String :=
   let tail := s!"f={boolStr s.failed} mi={s.msgIdx}"
@@ -159,8 +162,12 @@ def step (s : S) (args : List String) (impl : String) : S × Out :=
         if reached && !Handshake.rejectionClean rd && iFailed == some false then s!"bad wedged-{why}" else
         -- C05: a completion must rest on an accepted certificate bound to the peer's noise static key
         match implRes impl with
-        | some (_ :: _ :: cert :: _) =>
+        | some (_ :: _ :: cert :: rest) =>
           if !reached then "bad complete-without-read"
+          -- C05: the reported certificate carries exactly the static key the peer used in the exchange
+          else if (match Handshake.readStatic rd, rest.getLast? with
+                   | some ps, some pk => pk != bytesToHex ps
+                   | _, _ => true) then s!"bad complete-cert-key-not-peer-static cert={cert}"
           else if !Handshake.accepts rd co cert then s!"bad complete-unverified cert={cert}"
           else if !Handshake.carriesIndex mm.cfg.initiator rd then "bad complete-without-index"
           else
@@ -184,6 +191,8 @@ def step (s : S) (args : List String) (impl : String) : S × Out :=
         | .ok _ none => "pp:continue"
       (s', { model := showOutcome mm.cfg st' o false, verdict := verdict, tag := tag })
     | _, _, _, _, _, _ => (s, badOp)
+  | "forge" :: dst :: _ =>
+    (setR s dst none, { model := s!"ok len={(kv ann "len").getD "?"}", tag := "triv:forge" })
   | "mut" :: dst :: _ =>
     (setR s dst none, { model := s!"ok len={(kv ann "len").getD "?"}", tag := "triv:mut" })
   | ["pair", mi, mr] =>
